@@ -321,7 +321,8 @@ def run_case(case, tier):
         # (which rows there are is the business of the comparison above: of two coupled ligand groups on one common
         # charge centre - an exact tie - either may be the one that is kept)
         both = {r_["label"] for r_ in tab0} & {r_["label"] for r_ in tabT}
-        if [r_["label"] for r_ in tab0 if r_["label"] in both] != [r_["label"] for r_ in tabT if r_["label"] in both]:
+        same_rows = sorted(r_["label"] for r_ in tab0) == sorted(r_["label"] for r_ in tabT)    # (labels may repeat: two ligands of one name in a chain)
+        if same_rows and [r_["label"] for r_ in tab0 if r_["label"] in both] != [r_["label"] for r_ in tabT if r_["label"] in both]:
             viol.append({"cls": "pose-changes-report-order", "msg": "the determinant table lists its groups in another order after the motion"})
         elif [r_["label"] for r_ in tab0] == [r_["label"] for r_ in tabT]:
             for r0_, rT_ in zip(tab0, tabT):
